@@ -68,7 +68,7 @@ class Run:
                 self.known = [e for e in json.load(fh)['findings'] if e['property'] == pid]
         except FileNotFoundError:
             self.known = []
-        self.replay_dir = os.path.join(VERIF, 'out', 'replays', pid)
+        self.replay_dir = os.path.join(VERIF, 'out', 'replays' if os.path.realpath(REPO) == '/repo' else 'replays_alt', pid)
         if replay is None:
             shutil.rmtree(self.replay_dir, ignore_errors=True)
         os.makedirs(self.replay_dir, exist_ok=True)
@@ -138,7 +138,8 @@ class Run:
               'coverage': cov, 'assumptions': self.assumptions, 'wall_s': round(wall, 2),
               'violations': len(self.violations)}
         if self.replay is None:
-            path = os.path.join(VERIF, 'evidence', '%s.json' % self.pid)
+            evdir = 'evidence' if os.path.realpath(REPO) == '/repo' else os.path.join('out', 'evidence_alt')
+            path = os.path.join(VERIF, evdir, '%s.json' % self.pid)
             os.makedirs(os.path.dirname(path), exist_ok=True)
             with open(path, 'w') as fh:
                 json.dump(ev, fh, indent=1, default=_jsonable)
@@ -214,7 +215,17 @@ def main_wrapper(fn, pid, argv):
         rc = run.finish()
     except Exception:
         traceback.print_exc()
-        print('MACHINERY-FAILURE property=%s (exit 2; not a verdict about the code)' % pid, flush=True)
-        run.abort()
-        rc = 2
+        if run.violations:
+            # violations already established stand; the later machinery problem is reported, not hidden
+            print('MACHINERY-PROBLEM after %d violations were found (violations are reported)'
+                  % len(run.violations), flush=True)
+            try:
+                rc = run.finish()
+            except Exception:
+                traceback.print_exc()
+                rc = 1
+        else:
+            print('MACHINERY-FAILURE property=%s (exit 2; not a verdict about the code)' % pid, flush=True)
+            run.abort()
+            rc = 2
     sys.exit(rc)
